@@ -41,8 +41,14 @@ structure World where
 structure Req where
   node : Nat
   lst : Nat                 -- listener the request is sent to
-  auth : Option Nat         -- label: listener the Authorization value was obtained/computed for
+  auth : Option Nat         -- label of the Authorization HEADER: listener the value was obtained/computed for
+  implicit : Bool := false  -- the request URL itself carries user:password (net/http then sends Basic auth
+                            -- for it when no header is set); only a request built from the LFS URL has this
 deriving DecidableEq, Repr
+
+/-- the request as the server sees it: the header, or else the URL's own credentials -/
+def Req.sent (r : Req) : Req :=
+  { r with auth := match r.auth with | some l => some l | none => if r.implicit then some r.lst else none }
 
 inductive Ans | final | redirect (to : Nat) (loc : Loc) | unauthorized | notFound
 deriving DecidableEq, Repr
@@ -70,9 +76,9 @@ def maxVia : Nat := 3
 /-- lfsapi.getCreds: a request that already carries a value, or access mode none: nothing is
 attached; otherwise the helper is asked for the request's own place (getCredURLForAPI); `none` =
 FillCreds failed, nothing is sent. -/
-def prepare (access canFill : Bool) (r0 : Req) : Option Req :=
+def prepare (access : Bool) (canFill : Nat → Bool) (r0 : Req) : Option Req :=
   if r0.auth.isSome || !access then some r0
-  else if canFill then some { r0 with auth := some r0.lst } else none
+  else if canFill r0.lst then some { r0 with auth := some r0.lst } else none
 
 def dfltNode : Node := ⟨0, .final, 0, .abs, false⟩
 
@@ -80,35 +86,36 @@ def dfltNode : Node := ⟨0, .final, 0, .abs, false⟩
 def nextReq (w : World) (r : Req) (to : Nat) (loc : Loc) : Option Req :=
   match loc with
   | .bad => none
-  | .rel => some { node := to, lst := r.lst, auth := r.auth }      -- resolved against the request's own URL
+  | .rel => some { node := to, lst := r.lst, auth := r.auth, implicit := r.implicit }
+      -- resolved against the request's own URL: url.ResolveReference keeps scheme, userinfo and host
   | .abs =>
     let l' := (w.nodes.getD to dfltNode).l
     if (w.lst r.lst).scheme = .https ∧ (w.lst l').scheme = .http then none   -- refusing insecure redirect
     else some { node := to, lst := l', auth := if sameOrigin (w.lst r.lst) (w.lst l') then r.auth else none }
 
 /-- lfsapi.doWithAuth ∘ doWithCreds ∘ lfshttp.DoWithRedirect for one request and, recursively, its
-redirects.  `access` = the access mode is not `none`; `canFill` = the credential helper yields
-credentials.  `via` = number of requests already in the redirect chain. -/
-def chain (w : World) (access canFill : Bool) : Nat → Nat → Req → List Req × Outcome
+redirects.  `access` = the access mode is not `none`; `canFill l` = credentials can be obtained for listener `l`
+(URL userinfo of the LFS URL for the API's own place, the credential helper elsewhere).  `via` = number of requests already in the redirect chain. -/
+def chain (w : World) (access : Bool) (canFill : Nat → Bool) : Nat → Nat → Req → List Req × Outcome
   | 0, _, _ => ([], .plainErr)
   | fuel+1, via, r0 =>
     match prepare access canFill r0 with
     | none => ([], .plainErr)
     | some r =>
-      match w.answer r with
-      | .final => ([r], .ok)
-      | .notFound => ([r], .plainErr)
-      | .unauthorized => ([r], .authErr)
+      match w.answer r.sent with
+      | .final => ([r.sent], .ok)
+      | .notFound => ([r.sent], .plainErr)
+      | .unauthorized => ([r.sent], .authErr)
       | .redirect to loc =>
-        if via + 1 ≥ maxVia then ([r], .plainErr)     -- "too many redirects"
-        else match nextReq w r to loc with
-          | none => ([r], .plainErr)
-          | some nx => (r :: (chain w access canFill fuel (via + 1) nx).1, (chain w access canFill fuel (via + 1) nx).2)
+        if via + 1 ≥ maxVia then ([r.sent], .plainErr)     -- "too many redirects"
+        else match nextReq w r to loc with                  -- only the explicit header is copied
+          | none => ([r.sent], .plainErr)
+          | some nx => (r.sent :: (chain w access canFill fuel (via + 1) nx).1, (chain w access canFill fuel (via + 1) nx).2)
 
 /-- lfsapi.DoWithAuth: after an authentication error (the caller's request then carries no
 Authorization: the helper's value was rejected and deleted, or none was ever attached) the access
 mode is upgraded and the ORIGINAL request is resubmitted from scratch. -/
-def runAuth (w : World) (canFill : Bool) : Nat → Bool → Req → List Req
+def runAuth (w : World) (canFill : Nat → Bool) : Nat → Bool → Req → List Req
   | 0, _, _ => []
   | fuel+1, access, orig =>
     let (t, o) := chain w access canFill (maxVia + 1) 0 orig
@@ -119,6 +126,6 @@ def runAuth (w : World) (canFill : Bool) : Nat → Bool → Req → List Req
 /-- lfshttp.Client.Do with a caller-supplied Authorization header (a batch action's header):
 pure redirect following, nothing is ever attached. -/
 def runHeader (w : World) (orig : Req) : List Req :=
-  (chain w false false (maxVia + 1) 0 orig).1
+  (chain w false (fun _ => false) (maxVia + 1) 0 orig).1
 
 end Rd2
